@@ -221,11 +221,13 @@ def verify_cases(index, theory, qname, cases, use_contracts=(), contracts=None, 
     allowed_raise(exc_name)->Bool (optional), describe (optional))."""
     report = report or Report()
     frec = report.functions.setdefault(qname, {"hash": None, "mode": "law proved from callee contracts", "paths": 0, "cases": 0})
+    cases = list(cases)
+    many = len(cases) > 40
     for case in cases:
         ex = Exec(index, theory, contracts=contracts or {}, use_contracts=use_contracts, loop_specs=loop_specs or {})
         pre = list(case.get("pre", []))
         st, secs, be, _ = solve(pre, z3.BoolVal(False), timeout_ms=5000, want_model=False, use_cvc5=False)
-        report.add(f"{qname}#cover.{case['name']}", "unsat" if st in ("sat", "unknown") else "sat", secs, be,
+        report.add(f"{qname}#cover" if many else f"{qname}#cover.{case['name']}", "unsat" if st in ("sat", "unknown") else "sat", secs, be,
                    detail=None if st != "unsat" else "hypotheses unsatisfiable (vacuous)")
         try:
             outcomes, obligations = ex.explore(case["thunk"], pre)
